@@ -204,6 +204,7 @@ def run(ctx):
 
     from . import c14_deep
     c14_deep.run(ctx)
+    c14_deep.run_history(ctx)
 
 
 def _one_shot(repo, q):
